@@ -40,89 +40,56 @@ def _str_consts_on_path(body, path):
 
 
 def r1(ctx):
+    """DownloadPolicy::matches and FilterKind::matches evaluated (K6' with concrete strings and abstract collections)"""
+    from . import feval as E, strs, coll
     f = ctx.facts
     m = f.body("store::DownloadPolicy::matches")
-    ctx.touch(m)
-    adt = f.adt("store::DownloadPolicy")
-    vnames = [v["name"] for v in adt["variants"]]
-    ps = P.explore(m)
-    rows = {}
-    for p in ps:
-        d = P.decisions_dict(p)
-        vk = [v for k, v in p.decisions if k[0] == "discr" and "self" in k[1]]
-        ret = p.ret
-        outer_neg = False
-        while ret[0] == "expr" and ret[1] == "Not" and len(ret) > 2:
-            outer_neg = not outer_neg
-            ret = ret[2]
-        if len(vk) != 1 or ret[0] != "call":
-            ctx.bad("C15.R1", m.path, "form", "path not of the form match self { V => [!]iter.any/all(closure) } (UNSUPPORTED-FORM): %s -> %s" % (P.fmt_decisions(p), p.ret[:2]), m.sp)
-            continue
-        variant = vnames[vk[0]] if isinstance(vk[0], int) else [x for i, x in enumerate(vnames) if i not in [v for k, v in p.decisions]][0]
-        t = ret[2]
-        q = ret[1]
-        cl = [x for x in t["f"]["tdefs"] if x and "{closure" in x]
-        if q not in ("any", "all") or len(cl) != 1:
-            ctx.bad("C15.R1", m.path, "form.%s" % variant, "returns %s (UNSUPPORTED-FORM)" % q, t["sp"])
-            continue
-        cb = f.body(cl[0])
-        ctx.touch(cb)
-        # closure polarity: returns matches(..) or !matches(..)
-        pol = None
-        mc = [(bi, ct) for bi, ct in cb.calls() if callee_matches(ct, r"store::FilterKind::matches")]
-        if len(mc) == 1:
-            ct = mc[0][1]
-            if ct["d"]["l"] == 0:
-                pol = "+"
-            else:
-                for bi, si, s in cb.statements():
-                    if s["k"] == "assign" and s["p"]["l"] == 0 and s["r"][0] == "un" and s["r"][1] == "Not" and s["r"][2][0] in ("copy", "move") and s["r"][2][1]["l"] == ct["d"]["l"]:
-                        pol = "-"
-            # the key passed is the entry's key
-            ko = trace(cb, ct["a"][1])
-            key_ok = all(o.kind == "upvar" and o.data == "key" for o in ko) and bool(ko)
-            ctx.check(key_ok, "C15.R1", cb.path, "filter-applied-to-entry-key", "matches(%s)" % [origin_summary(o) for o in ko], ct["sp"])
-        if pol is None:
-            ctx.bad("C15.R1", cb.path, "closure-form", "closure is not `[!]pattern.matches(key)` (UNSUPPORTED-FORM)", cb.sp)
-            continue
-        quant = "exists" if q == "any" else "forall"
-        if outer_neg:
-            # De Morgan: !any(p) = all(!p), !all(p) = any(!p)
-            quant = "forall" if quant == "exists" else "exists"
-            pol = "-" if pol == "+" else "+"
-        rows[variant] = (quant, pol)
-    spec = {"NothingExcept": ("exists", "+"), "EverythingExcept": ("forall", "-")}
-    for v in spec:
-        ctx.check(rows.get(v) == spec[v], "C15.R1", m.path, "semantics.%s" % v, "%s => %s; spec %s" % (v, rows.get(v), spec[v]), m.sp)
-    # key = entry.key()
-    kl = m.local_by_name("key")
-    ok = False
-    if kl:
-        for o in trace(m, {"l": kl[0], "p": []}, through_calls=False):
-            if o.kind == "call" and o.data["f"].get("name") == "key" and {x.data[1] for x in trace(m, o.data["a"][0]) if x.kind == "arg"} == {"entry"}:
-                ok = True
-    ctx.check(ok, "C15.R1", m.path, "key-is-entry-key", "key = entry.key()", m.sp)
-    # FilterKind::matches
     fm = f.body("store::FilterKind::matches")
-    ctx.touch(fm)
-    fadt = [v["name"] for v in f.adt("store::FilterKind")["variants"]]
-    for p in P.explore(fm):
-        vk = [v for k, v in p.decisions if k[0] == "discr" and "self" in k[1]]
-        variant = fadt[vk[0]] if vk and isinstance(vk[0], int) else "?"
-        if p.ret[0] != "call":
-            ctx.bad("C15.R1", fm.path, "form.%s" % variant, "UNSUPPORTED-FORM", fm.sp)
-            continue
-        t = p.ret[2]
-        n = p.ret[1]
-        a0 = {origin_summary(o) for o in trace(fm, t["a"][0])}
-        a1 = {origin_summary(o) for o in trace(fm, t["a"][1])}
-        if variant == "Prefix":
-            ok = n == "starts_with" and a0 == {"arg:key"} and a1 == {"arg:self"}
-            ctx.check(ok, "C15.R1", fm.path, "Prefix=key.starts_with(prefix)", "%s(%s, %s)" % (n, sorted(a0), sorted(a1)), t["sp"])
-        elif variant == "Exact":
-            ok = n == "eq" and {tuple(sorted(a0)), tuple(sorted(a1))} == {("arg:key",), ("arg:self",)}
-            ctx.check(ok, "C15.R1", fm.path, "Exact=equality", "%s(%s, %s)" % (n, sorted(a0), sorted(a1)), t["sp"])
-    ctx.floor("C15.R1", 7)
+    ctx.touch(*f.scope(m.path, prefix="store::"))
+    ctx.touch(*f.scope(fm.path, prefix="store::"))
+    KEY = "abc"
+
+    def filt(kind, text):
+        return E.variant(f, "store::FilterKind", kind, strs.S(text))
+
+    def truth(kind, text):
+        return KEY.startswith(text) if kind == "Prefix" else KEY == text
+    base = strs.make_oracle(f, [])
+
+    def oracle(kind, name, payload, site):
+        if kind == "call":
+            t, args, it = payload
+            names = [it.tokname(a) for a in args]
+            if name == "key" and names and names[0] == "entry":
+                return strs.S(KEY)
+        return base(kind, name, payload, site)
+    # FilterKind::matches on its own
+    for kind, text in (("Prefix", "ab"), ("Prefix", "abc"), ("Prefix", ""), ("Prefix", "abcd"), ("Prefix", "b"), ("Exact", "abc"), ("Exact", "ab"), ("Exact", ""), ("Exact", "abcd")):
+        try:
+            ret, hp, ev = E.run(f, fm.path, [E.href("self"), strs.S(KEY)], {"self": filt(kind, text)}, oracle)
+            got = E.describe(ret, f)
+        except E.Unsupported as ex:
+            got = "UNSUPPORTED-FORM: %s" % ex
+        ctx.check(got == ("1" if truth(kind, text) else "0"), "C15.R1", fm.path, "%s=%s" % (kind, "key.starts_with(prefix)" if kind == "Prefix" else "equality"),
+                  "%s(%r).matches(%r) = %s (spec %s)" % (kind, text, KEY, got, truth(kind, text)), fm.sp)
+    lists = {"none": [], "one-matching": [("Prefix", "ab")], "one-not-matching": [("Prefix", "zz")], "exact-matching": [("Exact", "abc")], "exact-not-matching": [("Exact", "ab")],
+             "mixed": [("Prefix", "zz"), ("Exact", "abc")], "two-not-matching": [("Prefix", "zz"), ("Exact", "x")]}
+    for variant in ("NothingExcept", "EverythingExcept"):
+        bad = []
+        for label, fl in lists.items():
+            pol = E.variant(f, "store::DownloadPolicy", variant, coll.seq("vec", [filt(k, t) for k, t in fl]))
+            anym = any(truth(k, t) for k, t in fl)
+            want = anym if variant == "NothingExcept" else (not anym)
+            try:
+                ret, hp, ev = E.run(f, m.path, [E.href("self"), E.href("entry")], {"self": pol, "entry": E.Tok("entry")}, oracle)
+                got = E.describe(ret, f)
+            except E.Unsupported as ex:
+                got = "UNSUPPORTED-FORM: %s" % ex
+            if got != ("1" if want else "0"):
+                bad.append("filters %s: %s, spec %s" % (label, got, want))
+        ctx.check(not bad, "C15.R1", m.path, "semantics.%s" % variant,
+                  "evaluated on %d filter lists against the key %r; deviating: %s; spec: %s" % (len(lists), KEY, bad, "download iff some filter matches (an empty list selects nothing)" if variant == "NothingExcept" else "download iff no filter matches (an empty list selects everything)"), m.sp)
+    ctx.floor("C15.R1", 4)
 
 
 def r2(ctx):
